@@ -279,6 +279,8 @@ def mode_affine(p):
 
 def mode_empty_cluster(p):
     from bob.learn.em import KMeansMachine, GMMMachine
+    if p.get("skip_known"):
+        return {"reproduced": False, "cases": 0, "note": "this scenario IS the recorded finding KF-KMEANS-EMPTY"}
     x = np.array([[0.0, 0.0], [0.0, 1.0], [1.0, 0.0], [1.0, 1.0]])
     init = np.array([[0.5, 0.5], [100.0, 100.0]])
     m = KMeansMachine(2, init_method=init.copy(), max_iter=2)
@@ -292,7 +294,7 @@ def mode_empty_cluster(p):
         except Exception as e:
             gbad = True
     if bad or gbad:
-        return {"reproduced": True, "input": {"x": x.tolist(), "init_centroids": init.tolist()},
+        return {"reproduced": True, "known_finding": "KF-KMEANS-EMPTY", "input": {"x": x.tolist(), "init_centroids": init.tolist()},
                 "observed": {"centroids": np.asarray(m.centroids_).tolist(), "criterion": float(m.average_min_distance)},
                 "expected": "finite centroids", "what": "a cluster that captures no sample makes the centroids (and the GMM initialised from them) NaN"}
     return {"reproduced": False}
